@@ -377,9 +377,16 @@ def macro_rewrite(rnd, text):
     if defs and rnd.random() < 0.5:
         # (a ']' inside a comment within a macro BODY is not used: macro bodies are raw text up to the matching bracket
         #  in TaskJuggler, so that spelling is not meaning-preserving by anybody's reading)
-        k = rnd.randrange(3)
+        k = rnd.randrange(4)
         name0 = re.match(r"macro (\w+)", defs[0]).group(1)
-        if k == 0:
+        if k == 3:
+            # ... and a STRING that looks like a macro definition (a display name) is a string
+            for li, line2 in enumerate(out):
+                mo = re.match(r'^(\s*task \w+ )"([^"]*)"( \{)$', line2)
+                if mo:
+                    out[li] = '%s"was: macro %s [ effort 77777min ]"%s' % (mo.group(1), name0, mo.group(3))
+                    break
+        elif k == 0:
             out.insert(rnd.randrange(1, len(out) + 1), "# was: ${%s}" % name0)
         elif k == 1:
             defs.append("# macro %s [ effort 99999min ]" % name0)
